@@ -28,9 +28,10 @@ namespace worlds
     bool water = false;                  // 'tian water content' composition models (temperature- and pressure-dependent) on the oceanic plate and the slab
     bool long_traces = false;            // three small faults and a small slab on long traces in different directions (along x, along y, diagonal)
     bool many_depth_points = false;      // the continental plate's max depth is given at 20 points in general position
+    bool without_layer = false;          // no mantle layer: the continental plate is the first feature of the list (tag 0)
     unsigned depth_seed = 0;             // added to the seeds of the pseudo-random depth surfaces of many_depth_points (another set of surfaces over the same polygons)
     bool sparse = false;                 // features lack whole kinds of models (plume: no velocity / grains models, slab: no composition / velocity, fault: no temperature / grains, continental plate: no grains, oceanic plate: no velocity)
-    bool partial = false;                // features only partly replace what the features before them left: 'add' operations, slab / fault models limited to part of the thickness
+    bool partial = false;                // features only partly replace what the features before them left: 'add' operations (temperature, composition, velocity), a subtracting composition model that leaves negative values, slab / fault models limited to part of the thickness
   };
 
   inline std::string uniform_grains(const std::string &comps, int n, double a0)
@@ -83,22 +84,23 @@ namespace worlds
                 ",\"temperature models\":[{\"model\":\"linear\",\"min depth\":1e5,\"max depth\":4e5,\"top temperature\":1500,\"bottom temperature\":1700}]"
                 ",\"composition models\":[{\"model\":\"uniform\",\"compositions\":[2]}]"
                 ",\"grains models\":[" + uniform_grains("[0,1]", 2, 10) + "]"
-                ",\"velocity models\":[{\"model\":\"uniform raw\",\"velocity\":[0.01,0.02,0.03]}]}");
+                ",\"velocity models\":[{\"model\":\"uniform raw\",\"velocity\":[0.01,0.02,0.03]" + std::string(o.partial ? ",\"operation\":\"add\"" : "") + "}]}");
     f.push_back("{\"model\":\"continental plate\",\"name\":\"CP\",\"max depth\":" + (o.many_depth_points ? many : o.depth_points ? "[[1.5e5],[0.9e5,[" + P(-2.5,0) + "," + P(-5,5) + "]],[2.1e5,[" + P(-1,-3) + "]]]" : std::string("1.5e5")) + ",\"coordinates\":" + sq(-5,0,-5,5) +
                 ",\"temperature models\":[{\"model\":\"linear\",\"max depth\":1.5e5,\"top temperature\":300,\"bottom temperature\":1400" + std::string(o.partial ? ",\"operation\":\"add\"" : "") + "}]"
                 ",\"composition models\":[{\"model\":\"uniform\",\"compositions\":[0]" + std::string(o.partial ? ",\"operation\":\"add\"" : "") + "}" +
                 (o.random_models ? ",{\"model\":\"random\",\"compositions\":[3],\"min value\":[0.2],\"max value\":[0.7],\"operation\":\"replace defined only\"}" : "") + "]"
                 ",\"grains models\":[" + uniform_grains("[0]", 1, 15) + (o.random_models ? ",{\"model\":\"random uniform distribution\",\"compositions\":[1],\"grain sizes\":[-1],\"normalize grain sizes\":[true]}" : "") + "]"
-                ",\"velocity models\":[{\"model\":\"uniform raw\",\"velocity\":[-0.04,0.05,0.001]}]}");
+                ",\"velocity models\":[{\"model\":\"uniform raw\",\"velocity\":[-0.04,0.05,0.001]" + std::string(o.partial ? ",\"operation\":\"add\"" : "") + "}]}");
     f.push_back("{\"model\":\"oceanic plate\",\"name\":\"OP\",\"max depth\":" + (o.many_depth_points ? many_points(0, 5, -5, 5, 0.7e5, 1.3e5, 37, "1e5") : std::string("1e5")) + ",\"coordinates\":" + sq(0,5,-5,5) +
                 ",\"temperature models\":[{\"model\":\"half space model\",\"max depth\":1e5,\"top temperature\":280,\"bottom temperature\":1600,"
                 + (o.multi_ridge ? "\"spreading velocity\":[[0,[[0.03,0.05],[0.02,0.04]]]],\"ridge coordinates\":[[" + P(4.5,-6) + "," + P(4.0,0.25) + "],[" + P(3.0,-0.25) + "," + P(3.5,6) + "]]}]"
                    : "\"spreading velocity\":0.03,\"ridge coordinates\":[[" + P(4.5,-6) + "," + P(4.5,6) + "]]}]") +
                 ",\"composition models\":[{\"model\":\"uniform\",\"compositions\":[1,0],\"fractions\":[0.75,0.25]}" +
                 (o.random_models ? ",{\"model\":\"uniform\",\"compositions\":[3],\"operation\":\"replace defined only\"}" : "") +
+                (o.partial ? ",{\"model\":\"uniform\",\"compositions\":[2,0],\"fractions\":[0.3,0.4],\"operation\":\"subtract\"}" : "") +
                 (o.water ? ",{\"model\":\"tian water content\",\"compositions\":[1],\"lithology\":\"MORB\",\"initial water content\":1,\"cutoff pressure\":16,\"min depth\":2e3,\"max depth\":6e4,\"operation\":\"add\"}"
                            ",{\"model\":\"tian water content\",\"compositions\":[0],\"lithology\":\"sediment\",\"initial water content\":3,\"cutoff pressure\":1,\"max depth\":2e3,\"operation\":\"replace defined only\"}" : "") + "]"
-                ",\"grains models\":[" + uniform_grains("[1]", 1, 25) + "]"
+                ",\"grains models\":[" + uniform_grains("[1]", 1, 25) + (o.random_models ? ",{\"model\":\"random uniform distribution\",\"compositions\":[0],\"grain sizes\":[-1],\"normalize grain sizes\":[true]}" : "") + "]"
                 ",\"velocity models\":[{\"model\":\"uniform raw\",\"velocity\":[0.06,-0.01,0.002]}]}");
     f.push_back("{\"model\":\"plume\",\"name\":\"PL\",\"min depth\":2e4,\"max depth\":6e5,\"coordinates\":[" + P(-2,2) + "," + P(-2.2,2.1) + "," + P(-2.5,2.5) + "]"
                 ",\"cross section depths\":[1e5,2e5,4e5],\"semi-major axis\":[" + num(1.2*s) + "," + num(0.8*s) + "," + num(1.0*s) + "]"
@@ -152,6 +154,7 @@ namespace worlds
         f.push_back(small("fault", "F2", "[" + P(-4.5,4) + "," + P(-4.3,0) + "," + P(-4.5,-2.5) + "]", P(-20,0), 4e4, 3e4, 60, 622, 3));
         f.push_back(small("fault", "F3", "[" + P(1,4.5) + "," + P(4.5,1) + "]", P(20,20), 4e4, 3e4, 75, 633, 3));
       }
+    if (o.without_layer) f.erase(f.begin());
     std::string m = coord(o.spherical);
     auto MC = [&](const P2 &q) { return o.map ? o.map(q) : q; };
     if (o.cross_section && o.custom_cs) m += ",\"cross section\":[" + pt(MC({{o.cs0[0]*s, o.cs0[1]*s}})) + "," + pt(MC({{o.cs1[0]*s, o.cs1[1]*s}})) + "]";
